@@ -77,6 +77,24 @@ def run(ctx: Ctx):
     ctx.extra["box_parameter"] = box
     ctx.extra["inverse_flag"] = flag
 
+    # the vector that is wrapped is the separation between the other point and this residue's centre
+    other = [p_ for p_ in params if p_ not in (f.self_name, box, flag)][0]
+    seps = [s_ for s_ in ast.walk(fn) if isinstance(s_, ast.Assign) and isinstance(s_.value, ast.BinOp)
+            and "geometric_center" in norm(s_.value) and isinstance(s_.targets[0], ast.Name)]
+    ok_sep = False
+    if seps:
+        v_ = seps[0].value
+        sides = {norm(v_.left), norm(v_.right)}
+        ok_sep = isinstance(v_.op, ast.Sub) and "self.geometric_center" in sides and \
+            (other in sides or "%s.geometric_center" % other in sides)
+    ctx.ob("R19.1", f, seps[0] if seps else "separation", ok_sep,
+           "the vector that is wrapped and measured is the difference between the other point (or residue centre) and "
+           "this residue's geometric centre", node=seps[0] if seps else fn)
+    conv = [s_ for s_ in ast.walk(fn) if isinstance(s_, ast.If) and "isinstance(%s, Residue)" % other in norm(s_.test)]
+    ok_conv = bool(conv) and not isinstance(conv[0].test, ast.UnaryOp) and any(
+        isinstance(x, ast.Assign) and norm(x.targets[0]) == other and norm(x.value) == "%s.geometric_center" % other for x in conv[0].body)
+    ctx.ob("R19.1", f, conv[0] if conv else "residue argument", ok_conv,
+           "a residue argument is replaced by its geometric centre (a point argument is used as is)", node=conv[0] if conv else fn)
     paths = enum_paths(fn.body)
     n_box_paths = 0
     evaluated = []
